@@ -227,7 +227,7 @@ def key(ctx):
     return out
 
 
-@rule("LOOKUP", floor=4)
+@rule("LOOKUP", floor=8)
 def lookup(ctx):
     """Every Complete(Ok pkt) of the inbound handler sends on the sender removed from awaiting_ack at
     the position found by linear_search_by_key(awaiting_ack, rx_action_id(pkt)) of the same pkt;
@@ -310,6 +310,21 @@ def lookup(ctx):
         n += 1
     if not ls_fn and n == 0:
         raise AnchorLost("neither a search helper nor an inline position search in the inbound handler")
+    # every kind of acknowledgement is completed through such a lookup, in an arm of its own or in one shared arm
+    from ctx import match_arms, RXPACKET
+    from spec import variant_specs
+    sw = match_arms(hp, RXPACKET)[0]
+    specs = variant_specs(ctx, hp, RXPACKET, sw)
+    good = [o_ for o_ in out if o_.key.startswith("complete@") and o_.ok]
+    good_bbs = [e.inner_bb for e in comps]
+    for v in ("Puback", "Pubrec", "Pubcomp", "Suback", "Unsuback", "Pingresp"):
+        sp = specs.get(v)
+        if sp is None:
+            continue
+        reached = [e for e in comps if e.inner_bb in sp.reach and e.detail["variant"] == "Ok"]
+        out.append(Inst("LOOKUP", "kind=%s:completed" % v, bool(reached), hp.site(reached[0].inner_bb) if reached else hp.site(sw),
+                        "an inbound %s %s" % (v, "reaches the completion at %s" % sorted({e.site() for e in reached}) if reached else "reaches no completion of a waiting operation"),
+                        "the acknowledgement is handed to the operation that waits for it"))
     return out
 
 
@@ -534,10 +549,16 @@ def msgkind(ctx):
                         if targ is not None and targ.get("adt") == TXPACKET:
                             tx_variant = targ["variant"]
                             pkt_local = body.base_local(targ["ops"][0])
+                            # the packet wrapped in the TxPacket once (`let packet = TxPacket::Publish(..)`) and then both
+                            # keyed and encoded through the wrapper: the wrapper is that packet
+                            wrap_locals = {pkt_local}
+                            oo = body.origin(o[2]["ops"][0], through_calls=False)
+                            if oo[0] == "agg" and not oo[2]["lhs"]["p"]:
+                                wrap_locals.add(oo[2]["lhs"]["l"])
                             # the same packet local must be the receiver of the encode into buf_local
                             enc_ok = False
                             for i, t, k in body.calls_with_mut_ref_to(buf_local) if buf_local is not None else []:
-                                if (callee_name(t) or "").endswith("Encode::encode") and body.base_local(t["ops"][0]) == pkt_local:
+                                if (callee_name(t) or "").endswith("Encode::encode") and body.base_local(t["ops"][0]) in wrap_locals:
                                     enc_ok = True
                             ok_same = enc_ok
                     else:
@@ -679,10 +700,11 @@ def rsp_variant(ctx):
 def _channel_local(body, op):
     """Local holding the (sender, receiver) pair of the oneshot::channel() this endpoint belongs to."""
     cur = op
-    for _ in range(10):
+    for _ in range(16):
         if cur is None or cur.get("k") == "const":
             return None
         pl = cur["pl"]
+        rest = [p_ for p_ in pl["p"] if p_ != "deref"]
         ds = body.whole_defs(pl["l"])
         if len(ds) != 1:
             return None
@@ -691,17 +713,27 @@ def _channel_local(body, op):
             nm = callee_name(d[2]) or ""
             if nm.endswith("oneshot::channel"):
                 return pl["l"]
-            if nm in Body.PASS_THROUGH and d[2]["ops"]:
+            if nm in Body.PASS_THROUGH and d[2]["ops"] and not rest:
                 cur = d[2]["ops"][0]
                 continue
             return None
         if d[0] == "stmt":
             rv = d[3]["rv"]
             if rv["k"] == "use":
-                cur = rv["op"]
+                o = rv["op"]
+                if o.get("k") == "const":
+                    return None
+                cur = {"k": "copy", "pl": {"l": o["pl"]["l"], "p": list(o["pl"]["p"]) + rest}}
                 continue
             if rv["k"] in ("ref",):
-                cur = {"k": "copy", "pl": rv["pl"]}
+                cur = {"k": "copy", "pl": {"l": rv["pl"]["l"], "p": list(rv["pl"]["p"]) + rest}}
+                continue
+            if rv["k"] == "agg" and rv.get("what") == "tuple" and rest and isinstance(rest[0], dict) and "f" in rest[0] and rest[0]["f"] < len(rv["ops"]):
+                # the pair a constructor hands back (`(message, receiver)`): the component that is read
+                o = rv["ops"][rest[0]["f"]]
+                if o.get("k") == "const":
+                    return None
+                cur = {"k": "copy", "pl": {"l": o["pl"]["l"], "p": list(o["pl"]["p"]) + rest[1:]}}
                 continue
         return None
     return None
